@@ -15,7 +15,7 @@ EXTENDS Naturals, Sequences, FiniteSets, TLC
 CONSTANT K      \* maximal number of output lines
 
 Classes == {"plain", "blank", "ws_only", "trail_ws", "lead_ws", "looks_code", "looks_cmd", "looks_cont", "fence3", "fence4",
-            "sfx_kind", "sfx_quant", "sfx_empty", "sfx_esc", "sfx_noeol", "bslash", "ctrl", "bslash_ctrl", "bslash_other", "utf8",
+            "sfx_kind", "sfx_quant", "sfx_empty", "sfx_esc", "sfx_noeol", "bslash", "ctrl", "bslash_ctrl", "bslash_other", "tail_cr", "utf8",
             "utf8_other", "invalid_utf8", "hash", "fence_indent"}
 \* what a line of the class could be mistaken for when written verbatim into a test block
 Collides(c, fmt) ==
@@ -26,7 +26,7 @@ Collides(c, fmt) ==
       [] c \in {"fence3", "fence4", "fence_indent"} -> IF fmt = "md" THEN "fence" ELSE "none"
       [] c \in {"blank", "ws_only"} -> IF fmt = "cram" THEN "block-end" ELSE "none"
       [] OTHER -> "none"
-NeedsEscape(c, esc) == c \in {"ctrl", "bslash_ctrl", "bslash_other", "invalid_utf8", "utf8_other"} \/ (esc = "ascii" /\ c = "utf8")
+NeedsEscape(c, esc) == c \in {"ctrl", "bslash_ctrl", "bslash_other", "tail_cr", "invalid_utf8", "utf8_other"} \/ (esc = "ascii" /\ c = "utf8")
 
 VARIABLES lines, lastEol, code, fmt, esc, path
 vars == <<lines, lastEol, code, fmt, esc, path>>
